@@ -1374,10 +1374,18 @@ func c3ProbeRun(t *testing.T, c *c3Case) string {
 	return c3RunAttempt(t, c, &c.attempts[0], models, "").class
 }
 
+// c3ProbeObs: what the probes observed, one "name value" row each (-> Generated/C03_Variant.lean, TestVerifC03Variant)
+var c3ProbeObs []string
+
 func c3ProbeVariant(t *testing.T) {
 	v := 0
+	c3ProbeObs = nil
+	obs := func(name, val string) { c3ProbeObs = append(c3ProbeObs, name+" "+val) }
 	if c3ProbeFixed() {
 		v |= 1
+		obs("getvalue-realm", "ok")
+	} else {
+		obs("getvalue-realm", "panic")
 	}
 	// "" digest: pinned code panics on digest[7:19]
 	func() {
@@ -1385,6 +1393,9 @@ func c3ProbeVariant(t *testing.T) {
 		defer func() {
 			if recover() == nil {
 				v |= 2
+				obs("empty-digest", "err")
+			} else {
+				obs("empty-digest", "panic")
 			}
 		}()
 		_, _ = downloadBlob(context.Background(), downloadOpts{digest: "", regOpts: &registryOptions{}, fn: func(api.ProgressResponse) {}})
@@ -1397,7 +1408,9 @@ func c3ProbeVariant(t *testing.T) {
 		dB := c.addLayer(B, false)
 		c.attempts = []c3Attempt{{ls: []c3LScript{{dig: dA, chunks: [][]c3Chunk{{{src: "junk", junk: bytes.Repeat([]byte("X"), 64), cut: -1, end: "eof"}}}},
 			{dig: dB, head: []c3Reply{c3K("notfound")}}}}}
-		if c3ProbeRun(t, c) == "err:digest-mismatch" {
+		cl := c3ProbeRun(t, c)
+		obs("f6-errorpage-then-404", cl)
+		if cl == "err:digest-mismatch" {
 			v |= 8
 		}
 	}
@@ -1407,7 +1420,9 @@ func c3ProbeVariant(t *testing.T) {
 		dA := c.addLayer(A, false)
 		c.reg.layers = append(c.reg.layers, c.reg.layers[0])
 		c.attempts = []c3Attempt{{ls: []c3LScript{{dig: dA, chunks: [][]c3Chunk{{{src: "flip", flip: 3, cut: -1, end: "eof"}}}}}}}
-		if c3ProbeRun(t, c) == "err:digest-mismatch" {
+		cl := c3ProbeRun(t, c)
+		obs("dup-digest-flip", cl)
+		if cl == "err:digest-mismatch" {
 			v |= 4
 		}
 	}
@@ -1425,11 +1440,31 @@ func c3ProbeVariant(t *testing.T) {
 		for _, s := range res.statuses {
 			announced = announced || s == "verifying sha256 digest"
 		}
+		obs("flip-single", res.class)
+		if announced {
+			obs("flip-single-verifying-announced", "yes")
+		} else {
+			obs("flip-single-verifying-announced", "no")
+		}
 		if res.class == "err:digest-mismatch" && !announced {
 			v |= 16
 		}
 	}
 	c3Variant = v
+}
+
+// TestVerifC03Variant: the variant probes alone; their observations become Generated/C03_Variant.lean (Tie/C03.lean).
+func TestVerifC03Variant(t *testing.T) {
+	if os.Getenv("VERIF_OUT") == "" {
+		t.Skip("verification driver; run through /verif/check")
+	}
+	c3Setup(t, t.TempDir())
+	c3ProbeVariant(t)
+	rows := append([]string{}, c3ProbeObs...)
+	rows = append(rows, "mask "+strconv.Itoa(c3Variant))
+	if err := os.WriteFile(filepath.Join(zzverif.OutDir(), "variant.txt"), []byte(strings.Join(rows, "\n")+"\n"), 0o644); err != nil {
+		t.Fatal(err)
+	}
 }
 
 // c3HonestNeeded: one honest attempt per layer that may need cleaning, plus one.
